@@ -166,6 +166,15 @@ func Damage(r *Rng, b *Build, o DamageOpts) (*Build, []string) {
 				}
 				d.Entries = append(d.Entries, BEntry{Path: p, Kind: 'l', Dest: base})
 				desc = append(desc, "dir->symlink-to-moved-copy "+p)
+			} else if r.Intn(4) == 0 {
+				// a symlink that leads back to itself: everything below fails to resolve (ELOOP)
+				d.Remove(p)
+				base := p
+				if i := strings.LastIndex(p, "/"); i >= 0 {
+					base = p[i+1:]
+				}
+				d.Entries = append(d.Entries, BEntry{Path: p, Kind: 'l', Dest: base})
+				desc = append(desc, "dir->symlink-loop "+p)
 			} else {
 				d.Remove(p)
 				d.Entries = append(d.Entries, BEntry{Path: p, Kind: 'f', Data: r.Bytes(r.Intn(50))})
